@@ -197,6 +197,27 @@ def _moving(shard, ctx, col, np):
                             col.err('moving_' + k, err)
             if not np.array_equal(d, d0):
                 col.violation('C19/moving/argument-modified', 'input modified', {'signal': list(sig)})
+        # the same signal riding on a DC level (ADC counts around 40000): variance and standard deviation of every window are unchanged, mean and sum are shifted;
+        # compared with the exact statistic at the accuracy float64 allows for E[x^2] - E[x]^2 at that level (a few 1e-7), far below the smallest non-zero variance (3/16)
+        LEVEL = 40000
+        dl = (np.array(sig, dtype='int64') + LEVEL).astype('uint16' if sum(sig) % 2 else 'float64')
+        for w in range(1, n + 1):
+            try:
+                ol = {k: np.asarray(fn[k](dl, w), dtype='float64') for k in ('sum', 'mean', 'var', 'std')}
+            except Exception as e:
+                col.violation('C19/moving/raised', 'signal on a DC level: %s: %s' % (type(e).__name__, e), {'signal': list(sig), 'window': w, 'level': LEVEL}); continue
+            col.transitions += 4
+            for i in range(n - w + 1):
+                r = _stats([F(x) for x in sig[i:i + w]])
+                exp = {'sum': r['sum'] + w * LEVEL, 'mean': r['mean'] + LEVEL, 'var': r['var'], 'std': r['var']}
+                for k in ('sum', 'mean', 'var', 'std'):
+                    if ol[k].shape != (n - w + 1,): continue
+                    col.evaluations += 1; col.states += 1; col.nontrivial += 1
+                    g = float(ol[k][i]); g = g * g if k == 'std' else g
+                    tol = 1e-9 * (w * LEVEL) if k in ('sum', 'mean') else 64 * 2.3e-16 * (LEVEL + 3.0) ** 2
+                    if not abs(g - exp[k]) <= tol:
+                        col.violation('C19/moving_%s/dc-level' % k, 'moving_%s(%s + %d, window=%d)[%d]%s = %r, window statistic is %r' % (k, list(sig), LEVEL, w, i, ' squared' if k == 'std' else '', g, exp[k]),
+                                      {'signal': list(sig), 'window': w, 'index': i, 'level': LEVEL})
     col.sample({'function': 'moving_*', 'signal': list(sig), 'windows': list(range(1, n + 1))}, limit=1)
 
 
